@@ -1689,6 +1689,50 @@ def r01_16(ctx):
     ctx.ob("R01.16", "raw-write-sites", True, "", f"{n} raw encoder write(s) into a Vec's spare capacity", nontrivial=False)
 
 
+def r01_17(ctx):
+    """a byte offset belongs to the text it was measured in: a string obtained from `from_utf8_lossy` (every invalid byte
+    became a 3-byte U+FFFD) is never cut at an offset that comes from somewhere else - `split_at`, range indexing and
+    `get(range)` on it panic or cut inside a character when the offset was measured in the original bytes"""
+    prog = ctx.prog()
+    n = 0
+    seen = collections.Counter()
+    CUT = ("split_at", "split_at_mut", "split_at_checked", "index", "index_mut", "get", "get_mut", "get_unchecked", "is_char_boundary", "split_off", "truncate", "drain", "replace_range", "insert_str", "insert")
+    for f in prog.fns.values():
+        if f.crate != "sonic_rs":
+            continue
+        lossy = [(b, t) for b, t in f.calls() if callee_is(t, "from_utf8_lossy")]
+        if not lossy:
+            continue
+        n += 1
+        der = {t["dest"][0] for b, t in lossy}
+        for _ in range(6):
+            der |= forward_derived(f, der)
+            for b, t in f.calls():
+                if t["args"] and op_local(t["args"][0]) in der and t["callee"].rsplit("::", 1)[-1] in ("deref", "as_ref", "as_str", "borrow", "as_mut_str", "deref_mut", "to_string", "into_owned", "to_owned", "clone", "as_bytes"):
+                    der.add(t["dest"][0])
+            for b, i, s_ in f.assigns():
+                pl = op_place(s_["rv"]["op"]) if s_["rv"]["k"] == "use" else (s_["rv"]["p"] if s_["rv"]["k"] in ("ref", "rawptr") else None)
+                if pl is not None and pl[0] in der and not s_["lhs"][1]:
+                    der.add(s_["lhs"][0])
+        for b, t in f.calls():
+            nm = t["callee"].rsplit("::", 1)[-1]
+            if nm not in CUT or not t["args"] or op_local(t["args"][0]) not in der or len(t["args"]) < 2:
+                continue
+            if not any(x in t["callee"] for x in ("str", "String", "[T]", "slice", "Vec")):
+                continue
+            # the cutting offset must itself come from the repaired text (its len / a search in it)
+            ol = op_local(t["args"][1])
+            sl, leaves = backward_slice(f, [ol]) if ol is not None else (set(), [])
+            own = any(lf[0] == "call" and lf[2]["args"] and op_local(lf[2]["args"][0]) in der for lf in leaves)
+            const = op_int(t["args"][1]) is not None or (leaves and all(lf[0] == "const" for lf in leaves))
+            seen[short(f.id)] += 1
+            ok = own or const
+            ctx.ob("R01.17", f"{short(f.id)}#{seen[short(f.id)]}", ok, f.loc(t["ln"]),
+                   "the repaired text is cut at an offset measured in itself" if ok else
+                   f"the text repaired by from_utf8_lossy is cut by {nm} at an offset that was not measured in it: every invalid byte of the original has become three bytes there, the offset can land inside a character (panic) or elsewhere than meant")
+    ctx.ob("R01.17", "functions-using-from_utf8_lossy", n >= 1, "", f"{n} function(s) of the crate repair text with from_utf8_lossy", nontrivial=False)
+
+
 def r01_14(ctx):
     """data borrowed for 'de lives in the caller's buffer: a JsonInput implemented for a reference gives the reader either
     the borrowed bytes themselves or an owner that shares the caller's buffer.  The reader pins what it is given and
@@ -1798,4 +1842,4 @@ def r01_s(ctx):
     ctx.include(c16.r16_6, 'R01.S')
 
 
-RULES = [("R01.1", r01_1), ("R01.2", r01_2), ("R01.2b", r01_2b), ("R01.3", r01_3), ("R01.4", r01_4), ("R01.4b", r01_4b), ("R01.5", r01_5), ("R01.6", r01_6), ("R01.7", r01_7), ("R01.8", r01_8), ("R01.9", r01_9), ("R01.10", r01_10), ("R01.11", r01_11), ("R01.12", r01_12), ("R01.13", r01_13), ("R01.13x", r01_13x), ("R01.14", r01_14), ("R01.15", r01_15), ("R01.16", r01_16), ("R01.W", r01_w), ("R01.S", r01_s)]
+RULES = [("R01.1", r01_1), ("R01.2", r01_2), ("R01.2b", r01_2b), ("R01.3", r01_3), ("R01.4", r01_4), ("R01.4b", r01_4b), ("R01.5", r01_5), ("R01.6", r01_6), ("R01.7", r01_7), ("R01.8", r01_8), ("R01.9", r01_9), ("R01.10", r01_10), ("R01.11", r01_11), ("R01.12", r01_12), ("R01.13", r01_13), ("R01.13x", r01_13x), ("R01.14", r01_14), ("R01.15", r01_15), ("R01.16", r01_16), ("R01.17", r01_17), ("R01.W", r01_w), ("R01.S", r01_s)]
